@@ -78,7 +78,24 @@ pub fn gen_c14(tier: Tier, seed: u64) -> Case {
         }
         threads.push(ops);
     }
-    let class = ["point-ops", "points+scans+batches", "with-ingestion"][cls as usize].to_string();
+    let mut class = ["point-ops", "points+scans+batches", "with-ingestion"][cls as usize].to_string();
+    // an unrelated keyspace is created and deleted by one more thread while the others work
+    // (keyspace deletion publishes a sequence number of its own)
+    if g.r.chance(1, 4) {
+        let z = g.cfg.names.len() as u8;
+        g.cfg.names.push("z".into());
+        g.cfg.opts.push(KsOpts::default());
+        let mut ops = vec![];
+        for _ in 0..g.r.range(1, 3) {
+            ops.push(Op::CreateKs { ks: z });
+            if g.r.chance(1, 2) {
+                ops.push(Op::Insert { ks: z, key: 0, val: g.val() });
+            }
+            ops.push(Op::DeleteKs { ks: z });
+        }
+        threads.push(ops);
+        class.push_str("+keyspace-churn");
+    }
     thr_case("C14", seed, &g, program, threads, class)
 }
 
@@ -371,4 +388,90 @@ pub fn gen_c17t(_tier: Tier, seed: u64) -> Case {
     g.cfg.starve_on_drop = *g.r.pick(&[0u32, 50, 1100, 1100, 1500]);
     let class = format!("thr-drop-w{}-starve{}", g.cfg.workers, g.cfg.starve_on_drop);
     thr_case("C17", seed, &g, program, vec![ops], class)
+}
+
+/// C12 (THR): several threads open-or-create the same names at the same time, write through
+/// their own handles and read through them; afterwards some names are deleted, everything is
+/// closed and reopened. All handles of a name must be one keyspace (linearizable history over
+/// all handles), a deleted name stays deleted, the others keep exactly their content.
+/// C16 (THR): the same race, but every caller passes its own options: whoever creates the
+/// keyspace decides, every handle reports those options, and they are the stored ones after reopen.
+pub fn gen_c16t(tier: Tier, seed: u64) -> Case {
+    let mut c = gen_c12t(tier, seed);
+    let mut r = Rng::stream(seed, "options");
+    for t in &mut c.threads {
+        for op in t.iter_mut() {
+            if let Op::CreateKs { ks } = op {
+                if r.chance(2, 3) {
+                    let mut o = crate::gen::gen_ks_opts(&mut r);
+                    o.max_memtable = *r.pick(&[128u64, 256, 1024, 4096]);
+                    *op = Op::OpenKsWith { ks: *ks, opts: o };
+                }
+            }
+        }
+    }
+    c.prop = "C16".into();
+    c.class = format!("{}+own-options", c.class);
+    c
+}
+
+pub fn gen_c12t(tier: Tier, seed: u64) -> Case {
+    let mut r = Rng::stream(seed, "workload");
+    let n_names = r.range(2, 3) as usize;
+    let n_keys = r.range(2, 3) as usize;
+    let mut g = G::new(&mut r, n_names, n_keys, DbKind::Plain, false);
+    tiny_opts(&mut g);
+    // names created before the threads start (the others are created by the threads)
+    let pre = g.r.range(0, (n_names - 1) as u64) as usize;
+    let seedw = if pre > 0 { g.r.range(0, 2) as usize } else { 0 };
+    let mut program = g.create_initial(pre);
+    for _ in 0..seedw {
+        let ks = g.live_ks().unwrap();
+        program.push(Op::Insert { ks, key: g.key(), val: g.val() });
+    }
+    program.push(Op::RunThreads);
+    let n_threads = g.r.range(2, 3) as usize;
+    let budget = if tier == Tier::Quick { 8 } else { 12 };
+    let mut threads = vec![];
+    for _ in 0..n_threads {
+        let mut ops = vec![];
+        let mut have: Vec<u8> = (0..pre as u8).collect();
+        // open the racy names first (that is where the threads meet), in a drawn order
+        let mut racy: Vec<u8> = (pre as u8..n_names as u8).collect();
+        if g.r.chance(1, 2) {
+            racy.reverse();
+        }
+        for ks in racy {
+            ops.push(Op::CreateKs { ks });
+            have.push(ks);
+            if g.r.chance(1, 2) {
+                ops.push(Op::Insert { ks, key: g.key(), val: g.val() });
+            }
+        }
+        for _ in 0..g.r.range(2, budget) {
+            let ks = *g.r.pick(&have);
+            let key = g.key();
+            // point reads only: how scans relate to concurrent writes is C14's business (and has
+            // a recorded finding there); this class is about which keyspace a handle denotes
+            ops.push(match g.r.weighted(&[5, 1, 4, 1, 1]) {
+                0 => Op::Insert { ks, key, val: g.val() },
+                1 => Op::Remove { ks, key },
+                2 => Op::Read(ReadOp::Get { ks, key }),
+                3 => Op::Read(ReadOp::Contains { ks, key }),
+                _ => Op::CreateKs { ks },
+            });
+        }
+        threads.push(ops);
+    }
+    // tail: the main thread opens every name itself, maybe deletes one of the raced names
+    for ks in 0..n_names as u8 {
+        program.push(Op::CreateKs { ks });
+    }
+    let mut class = "create-race".to_string();
+    if g.r.chance(1, 2) {
+        let ks = g.r.range(pre as u64, (n_names - 1) as u64) as u8;
+        program.push(Op::DeleteKs { ks });
+        class.push_str("+delete");
+    }
+    thr_case("C12", seed, &g, program, threads, class)
 }
